@@ -1370,6 +1370,7 @@ class VLE(Equilibrium, phases='lg'):
         self._V = V = xVlogK[n]
         self._K = K = np.exp(xVlogK[n+1:])
         x = xVlogK[:n]
+        x_total = x.copy() # Liquid fractions on a total basis (non-partitioning solutes included)
         x, y = xy(x, K)
         self._z_last = z
         if gas_conversion or liquid_conversion:
@@ -1381,9 +1382,9 @@ class VLE(Equilibrium, phases='lg'):
             dmol_vle *= self._F_mol
             self._dmol_vle = dmol_vle
             self._dF_mol = dmol_vle.sum()
-            v = (self._F_mol - self._dF_mol) * V * x * K
+            v = (self._F_mol - self._dF_mol) * V * x_total * K
         else:
-            v = self._F_mol * V * x * K
+            v = self._F_mol * V * x_total * K
         return v
     
     def _setup(self, gas_conversion=None, liquid_conversion=None):
